@@ -115,7 +115,7 @@ def spec_tags(spec):
 
 def check_specs(ctx, fns, n, label, **kw):
     rng = ctx.rng(label)
-    cases, tree_cases, vars_cases = [], [], []
+    cases, tree_cases, vars_cases, find_cases = [], [], [], []
     for i in range(n):
         spec = G.gen_spec(rng, **kw)
         text = R.render_dmr(spec, xml_decl=rng.random() < 0.5)
@@ -127,6 +127,7 @@ def check_specs(ctx, fns, n, label, **kw):
         tree_cases.append(("dmr-spec-tree %s %s" % (G.hexs(spec["name"]), sx), G.norm_tree_sexp(et), {"spec": spec}))
         # what the spec declares (right-hand side of C11_parse) is what pydap returns, in document order
         vars_cases.append(("dmr-spec-vars " + sx, doc_order_dump(fns, spec, ds, dump), {"spec": spec}))
+        find_cases.append(("dmr-find " + G.xnode_sexp(et), find_dump(fns, spec, ds, dump), {"spec": spec}))
         for t in G.layout_tags(spec):
             ctx.tags[label + ":" + t] += 1
         judge_spec(ctx, fns, spec, text, ds, dump)
@@ -138,6 +139,26 @@ def check_specs(ctx, fns, n, label, **kw):
     ctx.correspond("dmr_to_dataset (walk dump)", cases)
     ctx.correspond("spec rendering = ElementTree's tree (renderRoot)", tree_cases)
     ctx.correspond("declared variables = dmr_to_dataset (expectVars, C11_parse)", vars_cases)
+    ctx.correspond("dataset[group path/name] (findVar, C11_addressable)", find_cases)
+
+
+def find_dump(fns, spec, ds, dump):
+    """dataset[<group path>/<name>] for every declared variable in document order: the key of what comes back"""
+    if ds is None:
+        return dump
+    BaseType = fns[3]
+    out = "(ok"
+    for p, v in R.walk_vars(spec):
+        key = R.fqn(p, v["name"]) if p else v["name"]
+        try:
+            with warnings.catch_warnings():
+                warnings.simplefilter("ignore")
+                got = ds[key]
+            found = G.hexs(G.var_key(got)) if isinstance(got, BaseType) else "none"
+        except Exception:
+            found = "none"
+        out += " (%s %s)" % (G.hexs(key), found)
+    return out + ")"
 
 
 def doc_order_dump(fns, spec, ds, dump):
